@@ -200,6 +200,10 @@ func pickKeys(r *Rng, init []KV, n int) []string {
 func batchSizes() []int { return []int{1, 2, 3, 5, 32} }
 
 func pickBatch(r *Rng) int {
+	if r.Chance(0.03) {
+		// far beyond any store the generators build, and around the powers of two
+		return pick(r, []int{64, 65, 128, 129, 256, 1000, 1024, 4097})
+	}
 	if r.Chance(0.2) {
 		return r.Range(4, 40)
 	}
